@@ -396,8 +396,19 @@ def partial_witness_programs(chk, n, label):
         fresh = Fresh()
         body, wits, guide = [], [], []
         for j in range(nw):
-            if rng.random() < 0.5:
+            c = rng.random()
+            if c < 0.4:
                 t, v = _pw_chain(rng)
+            elif c < 0.55:
+                # a wide tuple (4..7 components, possibly inside a sum) of which few components are looked at
+                t = ("T", tuple(rng.choice([("U", 3), ("U", 0), ("B",), ("U", 4), gen.UNIT, ("O", ("U", 1))]) for _ in range(rng.choice([4, 4, 5, 6, 7]))))
+                if rng.random() < 0.3:
+                    t = ("E", t, ("U", 3)) if rng.random() < 0.5 else ("O", t)
+                v = gen.gen_val(rng, t)
+                if t[0] == "E" and v[0] != "l":
+                    v = ("l", gen.gen_val(rng, t[1]), t[2])
+                if t[0] == "O" and v[0] != "s":
+                    v = ("s", gen.gen_val(rng, t[1]))
             else:
                 t = _pw_type(rng, rng.choice([2, 3, 3, 4]))
                 v = gen.gen_val(rng, t)
